@@ -25,6 +25,7 @@
 # those of the authors and should not be interpreted as representing official
 # policies, either expressed or implied, of Matt Chaput.
 
+from whoosh.compat import xrange
 from whoosh.matching import ConstantScoreMatcher, NullMatcher, ReadTooFar
 from whoosh.query import Query
 
@@ -73,7 +74,16 @@ class ColumnQuery(Query):
             return NullMatcher()
 
         creader = reader.column_reader(fieldname)
-        return ColumnMatcher(creader, comp)
+        m = ColumnMatcher(creader, comp)
+        if reader.has_deletions():
+            # The column still has the values of deleted documents
+            from whoosh.matching import FilterMatcher
+
+            deleted = frozenset(docnum for docnum
+                                in xrange(reader.doc_count_all())
+                                if reader.is_deleted(docnum))
+            m = FilterMatcher(m, deleted, exclude=True)
+        return m
 
 
 class ColumnMatcher(ConstantScoreMatcher):
